@@ -166,33 +166,15 @@ func documentedDefaults(c *Ctx, id string) {
 		}
 		got, has := stored[path]
 		if !has {
+			if want := docValue(ft, def, ""); want != "" && defaultAtUse(w, cfgT, path, want) {
+				c.OK(id, construct, ad.Pos(), "documented default %s is realised where the option is read: every read falls back to %s when the option is unset", def, want)
+				checked++
+				continue
+			}
 			c.Fail(id, construct, ad.Pos(), "README.md documents the default %s for %s, but no step called unconditionally by ApplyDefaults stores a default into %s under its own zero test: the option stays unset", def, d.key, path)
 			continue
 		}
-		want := ""
-		switch u := ft.Underlying().(type) {
-		case *types.Basic:
-			switch {
-			case ft.String() == "time.Duration":
-				if dur, err := time.ParseDuration(def); err == nil {
-					want = fmt.Sprintf("const(%d)", int64(dur))
-				}
-			case u.Info()&types.IsInteger != 0:
-				if n, err := strconv.Atoi(def); err == nil {
-					want = fmt.Sprintf("const(%d)", n)
-				}
-			case u.Info()&types.IsString != 0:
-				want = fmt.Sprintf("const(%q)", def)
-			}
-		case *types.Slice:
-			want = fmt.Sprintf("[const(%q)]", def)
-		case *types.Interface:
-			// int-or-string options: the documented text goes through the resolver
-			want = fmt.Sprintf("call(helpers.ResolveUnionIntOrStringValue)(const(%q))", def)
-			if n, err := strconv.Atoi(def); err == nil && got == fmt.Sprintf("const(%d)", n) {
-				want = got
-			}
-		}
+		want := docValue(ft, def, got)
 		if want == "" {
 			c.Undecided(id, construct, ad.Pos(), "cannot read the documented default %q of %s (%s) as a value of type %s", def, d.key, d.typ, ft.String())
 			continue
@@ -313,3 +295,114 @@ func nthCallIn(fn *ssa.Function, call *ssa.Call) int {
 	})
 	return found
 }
+
+// docValue: the origin term a store of the documented default text would have for a field of type ft ("" when the
+// text cannot be read as such a value). got is the stored term (int-or-string options may store the number itself).
+func docValue(ft types.Type, def, got string) string {
+	switch u := ft.Underlying().(type) {
+	case *types.Basic:
+		switch {
+		case ft.String() == "time.Duration":
+			if dur, err := time.ParseDuration(def); err == nil {
+				return fmt.Sprintf("const(%d)", int64(dur))
+			}
+		case u.Info()&types.IsInteger != 0:
+			if n, err := strconv.Atoi(def); err == nil {
+				return fmt.Sprintf("const(%d)", n)
+			}
+		case u.Info()&types.IsString != 0:
+			return fmt.Sprintf("const(%q)", def)
+		}
+	case *types.Slice:
+		return fmt.Sprintf("[const(%q)]", def)
+	case *types.Interface:
+		// int-or-string options: the documented text goes through the resolver
+		if n, err := strconv.Atoi(def); err == nil && got == fmt.Sprintf("const(%d)", n) {
+			return got
+		}
+		return fmt.Sprintf("call(helpers.ResolveUnionIntOrStringValue)(const(%q))", def)
+	}
+	return ""
+}
+
+// defaultAtUse: the option has no stored default, but every read of its field in the module is of the form
+// `x := K; if field > 0 (≠ 0) { x = field }` with K the documented default — the unset option behaves as documented.
+func defaultAtUse(w *World, cfgT types.Type, path, want string) bool {
+	// the field the path denotes
+	t := cfgT
+	var field *types.Var
+	for _, name := range strings.Split(path, ".") {
+		st, ok := t.Underlying().(*types.Struct)
+		if !ok {
+			return false
+		}
+		field = nil
+		for i := 0; i < st.NumFields(); i++ {
+			if st.Field(i).Name() == name {
+				field = st.Field(i)
+				t = field.Type()
+			}
+		}
+		if field == nil {
+			return false
+		}
+	}
+	reads := 0
+	ok, tested, merged := true, false, false
+	for _, fn := range w.ModFuncs {
+		allInstrs(fn, func(in ssa.Instruction) {
+			var v ssa.Value
+			switch x := in.(type) {
+			case *ssa.UnOp:
+				if fa, isFA := x.X.(*ssa.FieldAddr); isFA && x.Op.String() == "*" && fieldOfAddr(fa) == field {
+					v = x
+				}
+			case *ssa.Field:
+				if st, isSt := x.X.Type().Underlying().(*types.Struct); isSt && st.Field(x.Field) == field {
+					v = x
+				}
+			}
+			if v == nil || v.Referrers() == nil {
+				return
+			}
+			reads++
+			isZeroTest := func(b *ssa.BinOp, of string) bool {
+				k, isK := b.Y.(*ssa.Const)
+				return isK && (b.Op.String() == ">" || b.Op.String() == "!=") && w.Origin(k) == "const(0)" && w.Origin(b.X) == of
+			}
+			me := w.Origin(v)
+			for _, r := range *v.Referrers() {
+				switch y := r.(type) {
+				case *ssa.BinOp:
+					if isZeroTest(y, me) {
+						tested = true
+					} else {
+						ok = false
+					}
+				case *ssa.Phi:
+					// taken over only where the option is known to be set, the other edge being the documented default
+					set := guardedBy(v.(ssa.Instruction).Block(), true, func(g ssa.Value) bool {
+						b, isB := g.(*ssa.BinOp)
+						return isB && isZeroTest(b, me)
+					})
+					other := false
+					for _, e := range y.Edges {
+						if e != v && w.Origin(e) == want {
+							other = true
+						}
+					}
+					if set && other {
+						merged = true
+					} else {
+						ok = false
+					}
+				case *ssa.DebugRef:
+				default:
+					ok = false
+				}
+			}
+		})
+	}
+	return reads > 0 && ok && tested && merged
+}
+
